@@ -44,12 +44,6 @@ theorem hashes_shift (crc : Text → Nat) (wordOf : Nat → Text) (q : Nat) (hq 
     (hashes crc wordOf q (pre ++ xs))[pre.length + i]? = (hashes crc wordOf q xs)[i]? :=
   hashes_shift' crc wordOf q hq pre xs i hi
 
-def mapLines (f : Nat → Nat) (target : Array IdTok) : Array IdTok :=
-  target.map (fun t => { t with line := f t.line })
-
-def mapMatch {C : Type} (f : Nat → Nat) (m : Match C) : Match C :=
-  { m with startLine := f m.startLine, endLine := f m.endLine }
-
 /-- `match` commutes with strictly monotone relabelling of lines: same matches, same order, same
 confidences and token spans, lines relabelled. (Blank lines inserted, text moved down by k lines.) -/
 theorem match_line_monotone {C : Type} (N : NumEnv C) (f : Nat → Nat) (hf : ∀ a b, a < b → f a < f b)
